@@ -6,8 +6,10 @@ real ``loads``/``load`` must return/raise accordingly.  The syntax stage is
 observed through a hook on ``BlackbirdErrorListener.syntaxError`` and through an
 independent run of the shipped lexer/parser with a counting listener.
 """
+import hashlib
 import os
 import re
+import shutil
 import tempfile
 
 from .. import common, content, gen, monitor
@@ -24,7 +26,7 @@ MIN_NONTRIVIAL = {"quick": 3000, "thorough": 30000}
 REQUIRED_FUNCTIONS = ["error.py:BlackbirdErrorListener.syntaxError", "listener.py:parse"]
 FUNCTIONS = REQUIRED_FUNCTIONS
 REQUIRED_HOOKS = ["syntaxError"]
-REQUIRED_TAGS = ["mut:delete", "mut:substitute", "mut:insert", "mut:swap", "mut:truncate", "soup:tokens", "soup:chars", "via:load", "grammatical", "ungrammatical", "probe:viable-continuation", "margin:1", "margin:4"]
+REQUIRED_TAGS = ["mut:delete", "mut:substitute", "mut:insert", "mut:swap", "mut:truncate", "soup:tokens", "soup:chars", "via:load", "grammatical", "ungrammatical", "probe:viable-continuation", "margin:1", "margin:4", "via:include"]
 ASSUMPTIONS = ["'sentence of the grammar' and 'first token that makes the text ungrammatical' are decided by bbverif/g4ref.py from src/blackbird.g4 as it is now",
                "files for load() are ASCII (antlr4.FileStream default); loads() is fed arbitrary Unicode"]
 
@@ -236,6 +238,30 @@ def check_text(ctx, text, tags=(), base=None, via_load=False):
     if idx < bad:
         return ctx.violation("position-before-first-bad-token", "reported token #%d at %d:%d lies before the first bad token #%d (%s); message %r" % (idx, L, C, bad, expect, str(exc)[:160]), witness)
     ctx.observe("reported - first bad = %s" % (idx - bad if idx - bad < 3 else ">=3"))
+    # the same text as an *included* file: what load() reads is the script and the
+    # files it includes, so an ungrammatical include must end the same way
+    # (position not compared: it refers to the included file)
+    if text.isascii() and int(hashlib.sha1(text.encode()).hexdigest()[:2], 16) < 20:
+        d = tempfile.mkdtemp(prefix="bbv-c10i-")
+        try:
+            with open(os.path.join(d, "inc.xbb"), "w", encoding="ascii", newline="") as f:
+                f.write(text)
+            with open(os.path.join(d, "main.xbb"), "w", encoding="ascii", newline="") as f:
+                f.write('name m\nversion 1.0\ninclude "inc.xbb"\n\nVac | 0\n')
+            prog = exc = None
+            try:
+                prog = blackbird.load(os.path.join(d, "main.xbb"))
+            except Exception as e:
+                exc = e
+        finally:
+            shutil.rmtree(d, ignore_errors=True)
+        ctx.case("include:" + text, True, tags=["via:include"])
+        w2 = dict(witness, via_include=True)
+        if exc is None:
+            return ctx.violation("include:program-returned", "a script including an ungrammatical file (%s) returned a program" % expect, w2)
+        if not isinstance(exc, BlackbirdSyntaxError):
+            return ctx.violation("include:wrong-exception:" + common.exc_key(exc), "a script including an ungrammatical file (%s) raised %s instead of BlackbirdSyntaxError" % (expect, common.exc_text(exc)), w2)
+        ctx.hook("ungrammatical include refused with BlackbirdSyntaxError")
 
 
 def run(ctx):
